@@ -478,7 +478,10 @@ func (p *parser) parseBinary() (item ast.ItemNode, ok bool) {
 	for _, t := range p.getDataItemValueTokens() {
 		switch t.typ {
 		case tokenTypeNumber:
-			val, _ := strconv.ParseInt(t.val, 0, 0)
+			val, err := strconv.ParseInt(t.val, 0, 0)
+			if err != nil && err.(*strconv.NumError).Err == strconv.ErrSyntax {
+				p.errorf(t, "expected integer, found %q", t.val)
+			}
 			if !(0 <= val && val < 256) {
 				val = 0
 				p.errorf(t, "binary value overflow, should be in range of [0, 256)")
